@@ -251,10 +251,16 @@ pub async fn copy_bidi(ctx: ContextRef, params: &IoParams) -> Result<(), Error> 
             {
                 let craw = into_owned_fd(client);
                 let sraw = into_owned_fd(server);
-                csrc.rawfd = Some(AsyncFd::new(craw.try_clone().unwrap()).unwrap());
-                cdst.rawfd = Some(AsyncFd::new(craw).unwrap());
-                ssrc.rawfd = Some(AsyncFd::new(sraw.try_clone().unwrap()).unwrap());
-                sdst.rawfd = Some(AsyncFd::new(sraw).unwrap());
+                csrc.rawfd = Some(
+                    AsyncFd::new(craw.try_clone().context("dup client fd")?)
+                        .context("register client fd")?,
+                );
+                cdst.rawfd = Some(AsyncFd::new(craw).context("register client fd")?);
+                ssrc.rawfd = Some(
+                    AsyncFd::new(sraw.try_clone().context("dup server fd")?)
+                        .context("register server fd")?,
+                );
+                sdst.rawfd = Some(AsyncFd::new(sraw).context("register server fd")?);
             }
         } else {
             let (csr, csw) = tokio::io::split(client);
